@@ -38,8 +38,13 @@ MODEL_SORT_KEYS = dict(SORT_KEYS, default=lambda n: n.lower())
 
 
 class DocRun(object):
-    def __init__(self, doc, dups, strict_nl, use_view=False):
+    def __init__(self, doc, dups, strict_nl, use_view=False, blind=False):
         self.strict_nl = strict_nl
+        # blind: between the operations only the dump is looked at (no look-ups by key, no
+        # keys()): whatever the library remembers from its last look-up is what the history's own
+        # "get" steps put there.  Everything is compared at the end.
+        self.blind = False
+        self._blind_wanted = blind
         self.lead = doc["lead"]
         self.paras = [[dict(f, open=False) for f in p] for p in doc["paras"]]
         self.seps = list(doc["seps"])
@@ -69,6 +74,9 @@ class DocRun(object):
         self.use_view = use_view
         self.token_roles = ()
         self.compare("parse")
+        self.blind = self._blind_wanted
+        if self.blind:
+            self.labels.add("blind-between-operations")
 
     # -------------------------------------------------------------------------------- model
     def ftext(self, f):
@@ -151,6 +159,8 @@ class DocRun(object):
             if d != alt:
                 raise Violation(self.classify(d, exp), "after %s: dump %s, model %s (input %s)" % (
                     what, short(d), short(exp), short(self.text0, 200)))
+        if self.blind:
+            return
         # keys and (name, i) lookups on every live paragraph
         for pi, (p, rp) in enumerate(zip(self.paras, self.rparas)):
             keys = [str(k) for k in rp.keys()]
@@ -286,6 +296,48 @@ class DocRun(object):
         if canon_body(body) != canon_new(value):
             raise Violation("write-value", "after %s: field text %s reads %s, assigned %s" % (
                 what, short(body), short(canon_body(body)), short(canon_new(value))))
+
+    def do_get(self, pi, key, how, what):
+        """A read through the mapping interface: p[key], p.get(key), key in p, or the field
+        element itself.  Reads change nothing and agree with the model."""
+        p, rp = self.paras[pi], self.rparas[pi]
+        name, idx = key
+        occ = self.occ(p, name)
+        rkey = self.rkey(rp, p, key)
+        f = None
+        if occ and (idx is None or idx < len(occ)):
+            f = occ[0 if idx is None else idx]
+        exp = None if f is None else canon_body(f["b"])
+        v = self.view(rp)
+        if idx is None and len(occ) > 1 and how in ("in", "kvpair"):
+            how = "item"      # these two forms refuse an ambiguous key by design; [] and get() resolve it
+        self.labels.add("read:" + how)
+        if how == "in":
+            got = rkey in v
+            if got != (f is not None):
+                raise Violation("membership", "%s: %r in p is %r" % (what, rkey, got))
+            return
+        if how == "kvpair":
+            kv = rp.get_kvpair_element(rkey, use_get=True)
+            got = None if kv is None else kv.convert_to_text()
+            if got != (None if f is None else self.ftext(f)):
+                raise Violation("index-semantics", "%s: element of %r is %s, model %s" % (
+                    what, rkey, short(got), short(None if f is None else self.ftext(f))))
+            return
+        if how == "get":
+            got = v.get(rkey)
+        else:
+            try:
+                got = v[rkey]
+            except KeyError:
+                if f is None:
+                    return
+                raise Violation("live-read", "%s: p[%r] raises KeyError, model %s" % (what, rkey, short(exp)))
+            if f is None:
+                raise Violation("live-read", "%s: p[%r] reads %s, the model has no such field" % (
+                    what, rkey, short(got)))
+        if got != exp:
+            raise Violation("live-read", "%s: %s of %r reads %s, model %s" % (what, how, rkey, short(got), short(exp)))
 
     def do_clear(self, pi, what):
         """Mapping.clear(): every field of the paragraph is deleted."""
@@ -509,6 +561,9 @@ class DocRun(object):
 
     # -------------------------------------------------------------------------------- end
     def finish(self):
+        if self.blind:
+            self.blind = False
+            self.compare("the end of a blind history")
         if self.twin.dump() != self.text0:
             raise Violation("edit-leaks-into-another-document", "an unmodified document parsed from "
                             "the same text now dumps %s, text %s" % (short(self.twin.dump()), short(self.text0)))
